@@ -463,6 +463,132 @@ func rulesC04(p *Prog, r *Report) {
 			r.OK("V6", "stringsToNodes", p.pos(s2n.Pos()), "stores guarded by !isExpression", fmt.Sprintf("%d stores", n), true)
 		}
 	}
+
+	// V7
+	r.Rule("V7", "necessary", 2, "no success without the oracle: in Satisfies and ExtractLicenses every return that may carry a nil error is reached only after parse accepted the expression argument (a shortcut that answers before, or instead of, parsing gives this entry point a notion of validity of its own)")
+	for _, name := range []string{"Satisfies", "ExtractLicenses"} {
+		f := p.Func(p.ExpPkg, name)
+		if f == nil {
+			r.Unknown("V7", name, "-", "unresolved anchor: "+name)
+			continue
+		}
+		if msg := successNeedsParse(p, bp, f, 0, parse, 0); msg != "" {
+			r.Bad("V7", name, p.pos(f.Pos()), msg)
+		} else {
+			r.OK("V7", name, p.pos(f.Pos()), "every possibly-successful return is behind parse(expression) == nil error", "", true)
+		}
+	}
+}
+
+// successNeedsParse: every return of f whose error result may be nil is dominated by the success edge of a
+// call parse(param #pi) (directly, or through a helper that itself has this property for the argument),
+// or returns that call's own error. "" when it holds, else what fails.
+func successNeedsParse(p *Prog, bp *boundsProver, f *ssa.Function, pi int, parse *ssa.Function, depth int) string {
+	if depth > 3 || pi >= len(f.Params) {
+		return "the expression is handed through too many helpers to follow"
+	}
+	res := f.Signature.Results()
+	ei := -1
+	for i := 0; i < res.Len(); i++ {
+		if isErrorType(res.At(i).Type()) {
+			ei = i
+		}
+	}
+	if ei < 0 {
+		return f.Name() + " returns no error"
+	}
+	prm := ssa.Value(f.Params[pi])
+	// the oracle calls on the parameter in f: parse itself, or helpers with the property
+	oracle := map[*ssa.Call]int{} // call -> index of its error result
+	for _, b := range f.Blocks {
+		for _, in := range b.Instrs {
+			c, ok := in.(*ssa.Call)
+			if !ok || c.Call.StaticCallee() == nil {
+				continue
+			}
+			callee := c.Call.StaticCallee()
+			for ai, a := range c.Call.Args {
+				if a != prm {
+					continue
+				}
+				cres := callee.Signature.Results()
+				cei := -1
+				for i := 0; i < cres.Len(); i++ {
+					if isErrorType(cres.At(i).Type()) {
+						cei = i
+					}
+				}
+				if cei < 0 {
+					continue
+				}
+				if callee == parse || p.InModule(callee) && len(callee.Blocks) > 0 && successNeedsParse(p, bp, callee, ai, parse, depth+1) == "" {
+					oracle[c] = cei
+				}
+			}
+		}
+	}
+	isOracleErr := func(v ssa.Value) bool {
+		ex, ok := v.(*ssa.Extract)
+		if !ok {
+			// a single-result oracle (error only)
+			if c, isCall := v.(*ssa.Call); isCall {
+				_, ok := oracle[c]
+				return ok
+			}
+			return false
+		}
+		c, ok := ex.Tuple.(*ssa.Call)
+		if !ok {
+			return false
+		}
+		idx, ok := oracle[c]
+		return ok && idx == ex.Index
+	}
+	fb := bp.forFn(f)
+	for _, b := range f.Blocks {
+		ret, ok := b.Instrs[len(b.Instrs)-1].(*ssa.Return)
+		if !ok || ei >= len(ret.Results) {
+			continue
+		}
+		ev := ret.Results[ei]
+		if isOracleErr(ev) {
+			continue // returns the oracle's own verdict
+		}
+		behind := false
+		nonNil := false
+		for cf := range fb.facts[b.Index] {
+			bo, ok := cf.c.(*ssa.BinOp)
+			if !ok || (bo.Op != token.EQL && bo.Op != token.NEQ) {
+				continue
+			}
+			var other ssa.Value
+			if k, isK := bo.Y.(*ssa.Const); isK && k.IsNil() {
+				other = bo.X
+			} else if k, isK := bo.X.(*ssa.Const); isK && k.IsNil() {
+				other = bo.Y
+			}
+			if other == nil {
+				continue
+			}
+			isNilHere := (bo.Op == token.EQL) == cf.pol
+			if isOracleErr(other) && isNilHere {
+				behind = true
+			}
+			if other == ev && !isNilHere {
+				nonNil = true // this return carries an error that was tested non-nil
+			}
+		}
+		if behind || nonNil {
+			continue
+		}
+		if c, isCall := ev.(*ssa.Call); isCall && c.Call.StaticCallee() != nil {
+			if n := c.Call.StaticCallee().String(); n == "errors.New" || n == "fmt.Errorf" {
+				continue // a freshly made error is never nil
+			}
+		}
+		return fmt.Sprintf("%s: %s can return a nil error (%s) without parse having accepted %s", p.pos(ret.Pos()), f.Name(), describe(ev), f.Params[pi].Name())
+	}
+	return ""
 }
 
 // testedNotExpression: at block b the value v is known not to be a compound expression: either
